@@ -21,6 +21,11 @@ import heapq
 
 from . import HarnessError
 
+
+class WouldHangForever(BaseException):
+    """A blocking receive on a socket without a time-out and with nothing in flight: the real call never returns."""
+
+
 AF_INET = 2
 SOCK_DGRAM = 2
 SHUT_RD, SHUT_WR, SHUT_RDWR = 0, 1, 2
@@ -188,6 +193,8 @@ class SimSocket:
                     net.hook_recv(self, pos, data)
                 return data, src
             net.stats["would_block"] += 1
+            if net.hook_recv is not None and not (flags & MSG_PEEK):
+                net.hook_recv(self, None, None)      # a poll that found the socket dry (not a receive position)
             raise BlockingIOError(errno.EAGAIN, "Resource temporarily unavailable")
         pos = net.next_recv_pos()
         forced = pos in net.force_nodata
@@ -205,7 +212,7 @@ class SimSocket:
                     net.hook_recv(self, pos, data)
                 return data, src
         if tau is None:
-            raise HarnessError("blocking receive with nothing in flight would hang")
+            raise WouldHangForever("recvfrom on %s: no time-out set and nothing in flight" % (self.label,))
         if self.inbox:
             net.stats["held"] += 1
         if forced:
@@ -236,7 +243,8 @@ class SimSocket:
         self.net.log.add("sock.close", self.label)
 
     def fileno(self):
-        return -1 if self.closed else 3
+        # a fake descriptor number would make select()/poll() in the code under test wait on some REAL descriptor
+        raise HarnessError("the code under test asked for socket.fileno() (select/poll on sockets is not modelled)")
 
     # -- harmless parts of the socket surface a refactor might start using -------------------------
     def setsockopt(self, *a):
